@@ -62,6 +62,15 @@ package mail
 //@   requires[C19:wf] c != nil
 //@   ensures[C19:noleak] err != nil ==> world.liveConns == old(world.liveConns)
 //@   ensures[C19:live] err == nil ==> cwf(client) && fresh(csock(client)) && livebal(csock(client)) == old(world.liveConns)
+//@ func mail.Client.sendSingleMsg
+//@   requires[C19:wf] cwf(client)
+//@   ensures[C19:bal] cwf(client) && livebal(csock(client)) == old(livebal(csock(client)))
+//@ func mail.Client.SendWithSMTPClient
+//@   requires[C19:wf] client != nil ==> cwf(client)
+//@   ensures[C19:bal] client != nil ==> cwf(client) && livebal(csock(client)) == old(livebal(csock(client)))
+//@   loop 1 invariant[C19:bal] cwf(client) && livebal(csock(client)) == old(livebal(csock(client)))
+//@ func mail.Client.checkConn
+//@   ensures[C19:nonnil] r0 == nil ==> client != nil
 //@ func mail.Client.DialAndSendWithContext$1
 //@   requires[C19:wf] client != nil ==> cwf(client)
 //@   ensures[C19:bal] client != nil ==> cwf(client) && livebal(csock(client)) == old(livebal(csock(client))) && !csock(client).open
